@@ -844,6 +844,9 @@ class Engine:
             return T("s", z3.Concat(a.t, b.t))
         if a.k == "s" and b.k in ("i", "b") and isinstance(op, ast.Mult):
             return T("s", self.str_repeat(a.t, as_int(b), ec))
+        if a.k == "s" and b.k == "V" and isinstance(op, ast.Mult):
+            ec.may_raise(z3.Not(smt.is_intlike(b.t)), "TypeError", line, "can't multiply sequence by non-int")
+            return T("s", self.str_repeat(a.t, smt.num_int(b.t), ec))
         if a.k == "s" and isinstance(op, ast.Mod):
             raise OutOfSubset("% string formatting")
         if a.k == "V" and b.k == "V" and self.must(ec.st, z3.And(is_obj(a.t), is_obj(b.t))):
@@ -2000,6 +2003,20 @@ class Engine:
         if s is None:
             return None
         return T("s", str_lower(s))
+
+    def me_splitlines(self, recv, e, ec):
+        s_ = self.recv_str(recv, ec)
+        if s_ is None or e.args:
+            return None
+        self.assumptions.add("A-SPLITLINES: str.splitlines() returns a fresh list of strings of arbitrary (non-negative) length")
+        r = self.new_ref(ec, "list")
+        arr = fresh("lines", smt.ArrIV)
+        n = fresh("nlines", IntS)
+        ec.st.assume(n >= 0)
+        i = z3.Int("i!")
+        ec.st.assume(z3.ForAll([i], z3.Implies(z3.And(i >= 0, i < n), is_s(arr[i])), patterns=[arr[i]]))
+        self.list_set_all(ec, r, n, arr)
+        return tV(V.ref(r))
 
     def me_find(self, recv, e, ec):
         s = self.recv_str(recv, ec)
